@@ -2,7 +2,7 @@
    Only statements; every proof is `exact <lemma>`.
    Model: Model/Lines.v (files.go, line.go, autofix.go).  Spec: Spec/LinesSpec.v.
    `obs l` = (lineno l, text l, raws l), the view of a line the specification talks about. *)
-From PV Require Import Lib.Bytes Model.Lines Spec.LinesSpec Proofs.Lines Proofs.LinesLoop.
+From PV Require Import Lib.Bytes Model.Lines Spec.LinesSpec Proofs.Lines Proofs.LinesLoop Proofs.LinesComplete.
 Open Scope N_scope.
 
 (* convertToLogicalLines is defined on every byte string in both modes: no index
@@ -80,6 +80,13 @@ Theorem C09_model_meets_spec : forall (s : str) (mk : bool) ls e,
   convert_to_logical_lines s mk = Ok (ls, e) -> spec_holds mk s (map obs ls) = true.
 Proof. exact model_meets_spec. Qed.
 Print Assumptions C09_model_meets_spec.
+
+(* and the specification is complete: whatever passes the five clauses for input s
+   is the model's output -- the clauses pin the loader down, byte for byte *)
+Theorem C09_spec_complete : forall (s : str) (mk : bool) ls e (O : list obs_line),
+  convert_to_logical_lines s mk = Ok (ls, e) -> spec_holds mk s O = true -> O = map obs ls.
+Proof. exact spec_complete. Qed.
+Print Assumptions C09_spec_complete.
 
 (* saving: when no line was modified (no fix, or a fix created by line.Autofix()
    and left alone) nothing is written, and the strings SaveAutofixChanges
